@@ -18,7 +18,9 @@ RULE = ('Generated CouplingModels: lattice (Chain, Ladder, Square, Triangular, H
         'onsite/coupling term containers, to_TermList, calc_H_MPO (raw W contraction, +h.c. if flagged), ExactDiag.build_full_H_from_mpo '
         '/ _from_bonds, calc_H_bond, get_numpy_Hamiltonian / get_scipy_sparse_Hamiltonian, calc_H_MPO_from_bond, calc_H_bond_from_MPO, '
         'group_sites (spectrum), extract_segment; Hermiticity; invariance under explicit_plus_hc / sort_mpo_legs / conserve. '
-        'Predefined models of tenpy.models over parameters and conserve options. Non-trivial: >= 2 term kinds, or wrap-around, or '
+        'Predefined models of tenpy.models (TFIChain, XXZChain, XXZChain2, SpinChain S=1/2 and 1, FermionChain, BoseHubbardChain, '
+        'FermiHubbardChain, ClockChain, AKLTChain, tJChain, SpinChainNNN2; open and periodic chains) over parameters (default / zero / '
+        'int / float / array) and conserve options against their documented Hamiltonians. Non-trivial: >= 2 term kinds, or wrap-around, or '
         'fermions, or explicit_plus_hc, or non-default order. Distinct = distinct canonical JSON spec.')
 ASSUMPTIONS = ['site operators validated by C12, lattice enumeration reference from C19 (checks/c19.py: ref_couplings / ref_multi)']
 
@@ -596,7 +598,15 @@ PREDEF = {
                           [{'cons_N': None, 'cons_Sz': None}, {'cons_N': 'N', 'cons_Sz': 'Sz'}, {'cons_N': 'parity', 'cons_Sz': None}, {'cons_N': 'N', 'cons_Sz': 'parity'}],
                           ['t', 'U', 'V', 'mu'], 4),
     'ClockChain': ('clock', 'ClockChain', 'ClockSite', {'q': 3}, [{'conserve': None}, {'conserve': 'Z'}], ['J', 'g'], 4),
+    'AKLTChain': ('aklt', 'AKLTChain', 'SpinSite', {'S': 1.0}, [{'conserve': None}, {'conserve': 'parity'}, {'conserve': 'Sz'}, {'conserve': 'best'}], ['J'], 4),
+    'tJChain': ('tj_model', 'tJChain', 'SpinHalfHoleSite', {},
+                [{'cons_N': None, 'cons_Sz': None}, {'cons_N': 'N', 'cons_Sz': 'Sz'}, {'cons_N': 'parity', 'cons_Sz': None}, {'cons_N': 'N', 'cons_Sz': 'parity'}], ['t', 'J'], 4),
+    'SpinChainNNN2': ('spins_nnn', 'SpinChainNNN2', 'SpinSite', {'S': 0.5}, [{'conserve': None}, {'conserve': 'parity'}, {'conserve': 'Sz'}, {'conserve': 'best'}],
+                      ['Jx', 'Jy', 'Jz', 'Jxp', 'Jyp', 'Jzp', 'hx', 'hy', 'hz'], 6),
 }
+NNN_PARAMS = {'Jxp', 'Jyp', 'Jzp'}
+NO_BC_X = ('XXZChain', 'AKLTChain')
+OPEN_ONLY = ('XXZChain', 'XXZChain2', 'AKLTChain', 'SpinChainNNN2')
 
 
 @st.composite
@@ -657,6 +667,24 @@ def documented_H(name, L, P, bonds, sites):
             H += P['V'](b) * T(('Ntot', i), ('Ntot', j))
         for i in range(L):
             H += P['U'](i) * T(('Nu', i), ('Nd', i)) - P['mu'](i) * T(('Ntot', i))
+    elif name == 'AKLTChain':
+        for b, (i, j) in enumerate(bonds):
+            SS = T(('Sx', i), ('Sx', j)) + T(('Sy', i), ('Sy', j)) + T(('Sz', i), ('Sz', j))
+            H += P['J'](b) * (SS + SS @ SS / 3.)
+    elif name == 'tJChain':
+        for b, (i, j) in enumerate(bonds):
+            for s_ in 'ud':
+                H += -P['t'](b) * (T(('Cd' + s_, i), ('C' + s_, j)) + T(('Cd' + s_, j), ('C' + s_, i)))
+            SS = 0.5 * (T(('Sp', i), ('Sm', j)) + T(('Sm', i), ('Sp', j))) + T(('Sz', i), ('Sz', j))
+            H += P['J'](b) * (SS - 0.25 * T(('Ntot', i), ('Ntot', j)))
+    elif name == 'SpinChainNNN2':
+        for b, (i, j) in enumerate(bonds):
+            H += P['Jx'](b) * T(('Sx', i), ('Sx', j)) + P['Jy'](b) * T(('Sy', i), ('Sy', j)) + P['Jz'](b) * T(('Sz', i), ('Sz', j))
+        for b in range(L - 2):  # (open chain in the default order)
+            i, j = b, b + 2
+            H += P['Jxp'](b) * T(('Sx', i), ('Sx', j)) + P['Jyp'](b) * T(('Sy', i), ('Sy', j)) + P['Jzp'](b) * T(('Sz', i), ('Sz', j))
+        for i in range(L):
+            H -= P['hx'](i) * T(('Sx', i)) + P['hy'](i) * T(('Sy', i)) + P['hz'](i) * T(('Sz', i))
     elif name == 'ClockChain':
         for b, (i, j) in enumerate(bonds):
             t = T(('X', i), ('Xhc', j))
@@ -674,6 +702,8 @@ DEFAULTS = {'TFIChain': {'J': 1., 'g': 1.}, 'XXZChain': {'Jxx': 1., 'Jz': 1., 'h
             'FermionChain': {'J': 1., 'V': 1., 'mu': 0.}, 'BoseHubbardChain': {'t': 1., 'U': 0., 'V': 0., 'mu': 0.},
             'FermiHubbardChain': {'t': 1., 'U': 0., 'V': 0., 'mu': 0.}, 'ClockChain': {'J': 1., 'g': 1.}}
 DEFAULTS['SpinChain1'] = DEFAULTS['SpinChain']
+DEFAULTS.update({'AKLTChain': {'J': 1.}, 'tJChain': {'t': 1., 'J': 1.},
+                 'SpinChainNNN2': {'Jx': 1., 'Jy': 1., 'Jz': 1., 'Jxp': 1., 'Jyp': 1., 'Jzp': 1., 'hx': 0., 'hy': 0., 'hz': 0.}})
 ONSITE_PARAMS = {'g', 'hz', 'hx', 'hy', 'D', 'E', 'mu', 'U'}
 
 
@@ -686,24 +716,28 @@ def run_predef(spec):
     L = spec['L']
     # periodic chains with a finite MPS have couplings beyond nearest MPS neighbours: documented to need the general
     # `...Model` class instead of the NearestNeighborModel `...Chain`
-    periodic = spec['bc_x'] == 'periodic' and name not in ('XXZChain', 'XXZChain2') and L > 2
+    periodic = spec['bc_x'] == 'periodic' and name not in OPEN_ONLY and L > 2
     if periodic:
         clsname = clsname.replace('Chain', 'Model')
     cons = dict(consopts[spec['conserve']])
     tags = dict(model=name, eph=spec['explicit_plus_hc'])
     nb = L if periodic else L - 1
     mp = {'L': L, 'bc_MPS': 'finite', 'explicit_plus_hc': spec['explicit_plus_hc'], 'sort_mpo_legs': spec['sort_mpo_legs']}
-    if name != 'XXZChain':
+    if name not in NO_BC_X:
         mp['bc_x'] = 'periodic' if periodic else 'open'
+    if name == 'AKLTChain':
+        mp = {'L': L, 'bc_MPS': 'finite'}  # (not a CouplingMPOModel: only L, J, conserve, sort_charge, bc_MPS are options)
     mp.update(cons)
     for k, v in skw.items():
         mp['n_max' if (k == 'Nmax') else k] = v
+    if name == 'AKLTChain':
+        skw = {}  # (S = 1 is fixed by the model)
     if spec['sort_charge'] is not None and sitecls in ('SpinHalfSite', 'SpinSite', 'ClockSite') and name not in ('FermiHubbardChain',):
         mp['sort_charge'] = spec['sort_charge']
     P = {}
     for p in pnames:
         v = spec['params'].get(p, None)
-        n = L if p in ONSITE_PARAMS else nb
+        n = L if p in ONSITE_PARAMS else (max(L - 2, 0) if p in NNN_PARAMS else nb)
         if v is None:
             arr = np.full(n, DEFAULTS[name][p])
         elif isinstance(v, list):
@@ -714,10 +748,12 @@ def run_predef(spec):
             mp[p] = v
         P[p] = (lambda a: (lambda i: a[i]))(arr)
     # conserve options have to be compatible with the parameters (documented: checked / user responsibility)
-    nz = lambda p: p in P and any(abs(P[p](i)) > 0 for i in range(L if p in ONSITE_PARAMS else nb))
-    if name in ('SpinChain', 'SpinChain1'):
+    nz = lambda p: p in P and any(abs(P[p](i)) > 0 for i in range(L if p in ONSITE_PARAMS else (max(L - 2, 0) if p in NNN_PARAMS else nb)))
+    if name in ('SpinChain', 'SpinChain1', 'SpinChainNNN2'):
         c = cons.get('conserve')
         breaks_sz = nz('hx') or nz('hy') or nz('E') or any(abs(P['Jx'](b) - P['Jy'](b)) > 0 for b in range(nb))
+        if name == 'SpinChainNNN2':
+            breaks_sz = breaks_sz or any(abs(P['Jxp'](b) - P['Jyp'](b)) > 0 for b in range(max(L - 2, 0)))
         breaks_par = nz('hx') or nz('hy')
         if (c == 'Sz' and breaks_sz) or (c == 'parity' and breaks_par):
             raise Skip()
@@ -730,7 +766,8 @@ def run_predef(spec):
             mp['lattice'] = 'Chain'
         model = getattr(mod, clsname)(dict(mp))
         sites = model.lat.mps_sites()
-        nsite = getattr(S, sitecls)(**dict(skw, **({'cons_N': None, 'cons_Sz': None} if sitecls == 'SpinHalfFermionSite' else {'conserve': None})))
+        skw_ref = dict(PREDEF[name][3])
+        nsite = getattr(S, sitecls)(**dict(skw_ref, **({'cons_N': None, 'cons_Sz': None} if sitecls in ('SpinHalfFermionSite', 'SpinHalfHoleSite') else {'conserve': None})))
         nsites = [nsite] * L
         bonds = [(i, (i + 1) % L) for i in range(nb)]
         # Chain with periodic bc uses the 'folded' order by default: the documented H only refers to lattice neighbours
@@ -767,7 +804,8 @@ def run_predef(spec):
         cmp(Hm, 'H_MPO')
         require(np.linalg.norm(Hm - Hm.conj().T) <= tol, 'not-hermitian', 'H_MPO of %s' % name, rep='H_MPO', **tags)
         cmp(get_numpy_Hamiltonian(model, undo_sort_charge=True), 'get_numpy_Hamiltonian', std=True)
-        cmp(np.asarray(get_scipy_sparse_Hamiltonian(model, undo_sort_charge=True).todense()), 'get_scipy_sparse_Hamiltonian', std=True)
+        if name != 'AKLTChain':  # (documented NotImplementedError for models which are not a CouplingModel)
+            cmp(np.asarray(get_scipy_sparse_Hamiltonian(model, undo_sort_charge=True).todense()), 'get_scipy_sparse_Hamiltonian', std=True)
         if hasattr(model, 'H_bond') and L > 2 or (hasattr(model, 'H_bond') and not periodic):
             Hb_sum = np.zeros((D, D), dtype=complex)
             ok = True
